@@ -293,3 +293,12 @@ Proof. pose proof probe_tables_ok as H. apply andb_true_iff in H as [_ H]. exact
 Example probe_tables_nontrivial :
   (10000 <=? Z.of_nat (List.length (filter fired (flat_map l_outs probe_blocks)))) = true.
 Proof. vm_compute. reflexivity. Qed.
+
+(* ------------------------------------------------------------------ the cached name through the front end *)
+Lemma fename_tables_ok : forallb frow_ok fename_rows && frows_complete fename_rows = true.
+Proof. vm_compute. reflexivity. Qed.
+Theorem frontend_cached_name_rows : (forall r, In r fename_rows -> frow_ok r = true) /\ frows_complete fename_rows = true.
+Proof.
+  pose proof fename_tables_ok as H. apply andb_true_iff in H as [H Hc]. split; [|exact Hc].
+  intros r Hin. exact (proj1 (forallb_forall _ _) H r Hin).
+Qed.
